@@ -521,6 +521,12 @@ impl Gen {
                 Some(id.trim_start_matches("o.").to_string())
             }
             5 => Some(format!("p.{}", self.rng.range(1, 4))),
+            // right at the length limit (the LP subdenom "<id>.LP" must fit in 44 characters)
+            7 if self.rng.chance(1, 2) => {
+                let n = self.rng.range(37, 42) as usize;
+                let tag = self.uid("k");
+                Some(format!("{}{}", tag, "z".repeat(n.saturating_sub(tag.len()))))
+            }
             6 if which_invalid == 6 => Some(self.rng.pick(&["bad id", "x-y", "", "ünï", "aaaaaaaaaaaaaaaaaaaaaaaaaaaaaaaaaaaaaaaaaaaaaaaaaaaa"]).to_string()),
             _ => Some(self.uid("x")),
         };
@@ -861,6 +867,17 @@ impl Gen {
         }
         if self.rng.chance(1, 40) && ops.len() >= 2 {
             ops.swap(0, 1); // non-consecutive
+        }
+        if self.rng.chance(1, 15) && ops.len() >= 3 {
+            // a later link broken: an operation that declares another input denom than the
+            // previous hop's output
+            let k = self.rng.range(1, ops.len() as u64 - 1) as usize;
+            let SwapOperation::MantraSwap { token_in_denom: first_in, .. } = ops[0].clone();
+            if let SwapOperation::MantraSwap { token_in_denom, token_out_denom, pool_identifier } = ops[k].clone() {
+                let _ = token_in_denom;
+                let new_in = if self.rng.chance(1, 2) { first_in } else { token_out_denom.clone() };
+                ops[k] = SwapOperation::MantraSwap { token_in_denom: new_in, token_out_denom, pool_identifier };
+            }
         }
         if self.rng.chance(1, 60) {
             ops.clear();
